@@ -448,5 +448,65 @@ Definition ref_expr (root : string) (segs : list seg) : expr := fold_left seg_ac
 Definition run_ref (inp : list (string * ival)) (n : nat) (root : string) (segs : list seg) : res comp :=
   run inp n SSkip (SRet (EParen (ref_expr root segs))).
 
+(* ------------------------------------------------------------------------------------------------ *)
+(* 4. the syntactic fragment on which the analysis is proved sound (JsDeps/Sound.v): function-free programs
+      in which the inputs object can only travel through plain identifier-to-identifier assignments.
+      [br] = inside an if/else or ?: branch. *)
+
+(* may the expression evaluate to the inputs object itself? (syntactic over-approximation) *)
+Fixpoint may_inp (e : expr) : bool :=
+  match e with
+  | EId _ => true
+  | EParen e1 => may_inp e1
+  | ECond _ a b => may_inp a || may_inp b
+  | EAssign _ r => may_inp r
+  | ECall _ _ => true
+  | _ => false
+  end.
+
+(* a string-literal index whose token text is left unchanged by strip and is not empty *)
+Definition good_key (k : expr) : bool :=
+  match k with
+  | EStr dq s => String.eqb (strip_q (token_text dq s)) s && negb (String.eqb s "")
+  | _ => false
+  end.
+
+Fixpoint ok_e (br : bool) (e : expr) : bool :=
+  match e with
+  | ENum _ | EStr _ _ | EBool _ | EId _ => true
+  | EDot e1 f =>
+      match get_name e1 with
+      | Some _ => negb (is_reserved f)                      (* x.f : f must carry an Identifier token *)
+      | None => negb (may_inp e1) && ok_e br e1             (* otherwise the base is never the inputs object *)
+      end
+  | EIdx e1 k =>
+      match get_name e1 with
+      | Some _ => good_key k                                (* x["k"] / x['k'] *)
+      | None => negb (may_inp e1) && ok_e br e1 && ok_e br k
+      end
+  | EAdd a b => ok_e br a && ok_e br b
+  | ECond c a b => ok_e br c && ok_e true a && ok_e true b
+  | EParen e1 => ok_e br e1
+  | EAssign x r =>
+      negb (String.eqb x "inputs") &&
+      match get_name r with
+      | Some y => negb br || String.eqb y "inputs"          (* in a branch an alias is only (re)bound to inputs itself *)
+      | None => negb (may_inp r) && ok_e br r
+      end
+  | ECall _ _ | EFun _ _ => false
+  end.
+
+Fixpoint ok_s (br : bool) (s : stmt) : bool :=
+  match s with
+  | SSkip | SVar _ => true
+  | SSeq a b => ok_s br a && ok_s br b
+  | SVarI _ e => negb (may_inp e) && ok_e br e             (* initialisers are invisible to the listener *)
+  | SExpr e | SRet e => ok_e br e
+  | SIf c t f => ok_e br c && ok_s true t && ok_s true f
+  | SFun _ _ _ => false
+  end.
+
+Definition in_fragment (body : stmt) : bool := ok_s false body.
+
 Definition incl_b (a b : list string) : bool := forallb (fun x => mem x b) a.
 Definition set_eqb (a b : list string) : bool := incl_b a b && incl_b b a.
